@@ -8,7 +8,9 @@ import (
 	"fmt"
 	"os"
 	"path/filepath"
+	"regexp"
 	"sort"
+	"strconv"
 	"strings"
 	"testing"
 
@@ -37,6 +39,11 @@ type Decl struct {
 	Rec  bool     `json:"rec"`
 	// Also: further names defined by the same Go declaration (a const ( … ) / var ( … ) group)
 	Also []string `json:"also,omitempty"`
+	// Rejected: a planted declaration outside the subset (channel type, float constant, channel send,
+	// package-level var without value): goose must report exactly one error for it, emit nothing
+	// under its name, and treat every OTHER declaration exactly as if it were not there
+	// (seeded change C04-10: state of a rejected declaration leaking onto the next one)
+	Rejected bool `json:"rejected,omitempty"`
 }
 
 // Layout is one arrangement: files (name -> ordered decl indexes).
@@ -659,6 +666,33 @@ func genCase(t *rapid.T) Case {
 			}
 		}
 	}
+	// planted rejections, with accepted declarations that mention them and callers of those
+	if g.chance("planted", 30) {
+		np := 1 + g.pick("nplanted", 3)
+		for k := 0; k < np; k++ {
+			name := fmt.Sprintf("RJ%d", k)
+			switch g.pick("plantkind", 4) {
+			case 0:
+				g.decls = append(g.decls, Decl{Name: name, Rejected: true, Text: "type " + name + " chan uint64\n"})
+				user := "use" + name
+				g.decls = append(g.decls, Decl{Name: user, Text: "func " + user + "() {\n\tvar c " + name + "\n\t_ = c\n}\n"})
+				g.decls = append(g.decls, Decl{Name: "via" + name, Text: "func via" + name + "() {\n\t" + user + "()\n}\n", Deps: []string{user}})
+			case 1:
+				g.decls = append(g.decls, Decl{Name: name, Rejected: true, Text: "const " + name + " = 1.5\n"})
+			case 2:
+				body, deps := "\tx := uint64(1)\n", []string(nil)
+				if len(g.funcs) > 0 && g.funcs[0].result == "uint64" && len(g.funcs[0].params) == 0 {
+					body = "\tx := " + g.funcs[0].name + "()\n"
+				}
+				_ = deps
+				g.decls = append(g.decls, Decl{Name: name, Rejected: true, Text: "func " + name + "(c chan uint64) uint64 {\n" + body + "\tc <- x\n\treturn x\n}\n"})
+			default:
+				g.decls = append(g.decls, Decl{Name: name, Rejected: true, Text: "var " + name + " uint64\n"})
+				user := "read" + name
+				g.decls = append(g.decls, Decl{Name: user, Text: "func " + user + "() uint64 {\n\treturn " + name + "\n}\n"})
+			}
+		}
+	}
 	// forward pointer fields may name structs that were never generated: add them
 	for k := si; k < si+3; k++ {
 		g.decls = append(g.decls, Decl{Name: fmt.Sprintf("S%d", k), Text: fmt.Sprintf("type S%d struct {\n\tz uint64\n}\n", k)})
@@ -681,6 +715,17 @@ func genCase(t *rapid.T) Case {
 		c.Layouts = append(c.Layouts, lay)
 	}
 	return c
+}
+
+var nErrorsRe = regexp.MustCompile(`(?s)\n(\d+) errors\s*$`)
+
+func keys(m map[string]bool) []string {
+	var out []string
+	for k := range m {
+		out = append(out, k)
+	}
+	sort.Strings(out)
+	return out
 }
 
 func indexes(n int) []int {
@@ -745,7 +790,12 @@ func runCase(c Case) result {
 	}
 	expected := map[string]bool{}
 	deps := map[string][]string{}
+	planted := map[string]bool{}
 	for _, d := range c.Decls {
+		if d.Rejected {
+			planted[d.Name] = true
+			continue
+		}
 		expected[d.Name] = true
 		deps[d.Name] = d.Deps
 		for _, n := range d.Also {
@@ -769,7 +819,18 @@ func runCase(c Case) result {
 			if strings.Contains(errs[i].Error(), "could not load package") {
 				return result{unusable: "generated declarations do not type-check: " + errs[i].Error()}
 			}
-			return result{msg: fmt.Sprintf("layout %d: goose rejected the package: %v\n%s", li, errs[i], showLayout(c, lay))}
+			nerr := 1 // a single error is returned as it is, several end in "<n> errors"
+			if m := nErrorsRe.FindStringSubmatch(errs[i].Error()); m != nil {
+				nerr, _ = strconv.Atoi(m[1])
+			}
+			if len(planted) == 0 {
+				return result{msg: fmt.Sprintf("layout %d: goose rejected the package: %v\n%s", li, errs[i], showLayout(c, lay))}
+			}
+			if nerr != len(planted) {
+				return result{msg: fmt.Sprintf("layout %d: %d declarations outside the subset were planted (%v), goose reports %d errors: every other declaration must be treated as if the planted ones were not there\n%v\n%s", li, len(planted), keys(planted), nerr, errs[i], showLayout(c, lay))}
+			}
+		} else if len(planted) > 0 {
+			return result{unusable: "a planted declaration was accepted"}
 		}
 		var buf bytes.Buffer
 		cf.Write(&buf)
@@ -787,6 +848,9 @@ func runCase(c Case) result {
 		for n, k := range seen {
 			if k > 1 {
 				return result{msg: fmt.Sprintf("layout %d: name %s is defined %d times\n%s\n--- emitted ---\n%s", li, n, k, showLayout(c, lay), text)}
+			}
+			if planted[n] {
+				return result{msg: fmt.Sprintf("layout %d: the rejected declaration %s is emitted all the same\n%s\n--- emitted ---\n%s", li, n, showLayout(c, lay), text)}
 			}
 			if !expected[n] && !strings.Contains(n, "__to__") {
 				return result{msg: fmt.Sprintf("layout %d: unexpected definition %s\n%s\n--- emitted ---\n%s", li, n, showLayout(c, lay), text)}
